@@ -467,7 +467,7 @@ impl Client {
                     });
                 }
             }
-            State::Active(ref state) => {
+            State::Active(ref mut state) => {
                 // A matching SYN+ACK has already been received, so acknowledge this one assuming
                 // the nonce ack matches ours (and ignore it otherwise). This case is only
                 // encountered when our initial ACK was dropped - all that matters is that the
@@ -480,6 +480,9 @@ impl Client {
                         nonce_ack: frame.nonce,
                     });
                     let _ = self.socket.send(&reply.write());
+
+                    // The server is evidently alive
+                    state.timeout_time_ms = now_ms + self.config.endpoint_config.active_timeout_ms;
                 }
             }
             _ => (),
